@@ -18,29 +18,33 @@ from vplib.props.c17gen import Gen
 
 MANIFEST = dict(
     category="proof",
-    text="partial. Coq theorems (17, closed under the global context): "
+    text="partial. Coq theorems (22, closed under the global context): "
          "(1) normalize_blocks (model of simplify.rs) is idempotent for the compiler's option set and for the formatter's with ANY keep predicate, "
          "and formatter-then-compiler normalisation equals compiler normalisation for ANY keep predicate (format_then_compile_same: 'identical after removing no-op blocks'); "
          "(2) the string escapers of format.rs are inverted by the parser's unescaping, single-line and multi-line (every string and margin: \\s protection, CR/TAB/quote/brace/backslash escapes, "
          "empty lines, closing delimiter found where expected, no hole opened), and the printer's trailing-space stripping leaves every rendered line intact; "
          "(3) the Wadler printer of pretty.rs is total and emits exactly the Text atoms of the Doc in order for every width, each IfBreak resolved by its enclosing group's mode "
          "(docs with LineSuffix: as a permutation); "
-         "(4) NEW: on the data-literal fragment (integers, identifiers, single-line strings, nested anonymous/named tuples with optional labels, chains) BOTH the formatter's Doc construction "
+         "(4) on the data-literal fragment (integers, identifiers, single-line strings, nested anonymous/named tuples with optional labels, chains) BOTH the formatter's Doc construction "
          "(term_doc, tuple_doc, field_doc, bracketed with its trailing comma, chain_doc with the head-flat-plus-container and `~>`-continuation layouts and the 50-column soft width, "
          "break_if_wider_than, flatten, flat_width, format_program for one statement) AND the parser (program, chain, primary, tuple_term, tuple_field(_list), identifier, tuple_name, integer_literal, "
          "string_segments) are modelled, and parse o print = id holds for EVERY width (frag_roundtrip), hence print o parse o print = print (frag_format_fixpoint), the parser only yields "
-         "well-formed chains (parse_frag_wf) and formatting any accepted fragment source is a fixpoint (frag_source_fixpoint). "
+         "well-formed chains (parse_frag_wf) and formatting any accepted fragment source is a fixpoint (frag_source_fixpoint); "
+         "(5) NEW: the same for the fragment WITH BLOCKS (FormatFrag2: `{..}` with `|` branches, guards `=>`, multi-step sequences): the model adds format_program's normalize_blocks step, "
+         "sequence_doc with several steps and tall steps, is_tall_step, block_doc, leading_bar, branch_doc, wrap_breaking_body, collapse_blanks and the parser's block / expression / branch / sequence / seq_sep; "
+         "for EVERY width the output parses to the input up to the no-op blocks the formatter removes or adds (frag2_roundtrip: g_normalize c' = g_normalize s), formatting the re-parsed output reproduces it "
+         "(frag2_format_fixpoint), the fragment's normalisation is idempotent, the parser yields well-formed sequences and formatting any accepted source is a fixpoint (frag2_source_fixpoint). "
          "Every modelled function is compared with the real one on generated inputs at every run (counts in the evidence: modelled_functions_compared_with_real_code). "
-         "NOT proved (partial): outside the fragment the Doc construction of format.rs (blocks, branches, functions, patterns, types, multi-chain sequences with their tall-step/comma rules), "
+         "NOT proved (partial): outside the two fragments the Doc construction of format.rs (functions, spawn/select forms, patterns and bindings, types and type aliases, multi-line strings and holes inside layouts, the comma rules needs_comma/term_gap), "
          "comment/blank-line (trivia) scanning and attachment, collapse_blanks and the rest of the nom parser are unmodelled, and normalize_preserves_eval is left to C02; "
          "so for the full language the user-visible property (output re-parses, is a fixpoint, same program up to no-op blocks, same bytecode, same comment sequence) is decided by an end-to-end "
          "real-vs-real metamorphic search over grammar-generated sources (all forms, comments/blank lines/CRLF at every boundary), std/*.qv, and every parsing source string of the test suite "
          "and of format.rs's own tests.",
     design_ref="§5 C17",
     note="Trusted: Coq kernel, extraction (ExtrOcamlBasic), OCaml driver, Rust harness (incl. its own interpolation-aware comment scanner), generators. "
-         "The search found 24 defect classes in the real formatter (F15-F19, F30-F44, F60-F63, F79c17; incl. a panic and two program-changing rewrites); 20 are repaired in /repo and their reproducers are "
-         "must-pass corpus probes; F31, F32, F41 and F79c17 remain known, are matched narrowly by input signature only while known_findings.json lists them as known, and have proposed repairs in "
-         "hooks/fix_F31_F32.patch, fix_F41.patch, fix_F79c17.patch (F31 only partly: comments inside types, patterns and holes have no AST node to stay with).",
+         "The search found 26 defect classes in the real formatter (F15-F19, F30-F44, F60-F63, F79c17, F89, F90; incl. a panic and two program-changing rewrites); 23 are repaired in /repo and their reproducers are "
+         "must-pass corpus probes; F32, F41, F79c17 were repaired from hooks/fix_*.patch; still known: F31 (only its residual class: a comment inside a type, a pattern or an interpolation hole), "
+         "F89 and F90 (residues of the F31 repair; repairs proposed in hooks/fix_F89.patch and hooks/fix_F90.patch). Known findings are matched narrowly by input signature and only while known_findings.json lists them as known.",
     technique="Coq proof of the simplifier / string codec / layout models and of parse-print round trips on a modelled fragment + model-code correspondence by differential execution + "
               "end-to-end metamorphic testing of the real formatter",
 )
